@@ -267,6 +267,20 @@ func evRefreshDown() h.Event {
 	return h.Event{Label: "every-refresh-of-this-scan-fails", Apply: func(hh *h.Hist) { hh.SlotFlags["refresh-down"] = true }}
 }
 
+// evConcurrentWrite: another client changes the node (adds a foreign taint and a label) between
+// escalator's next read of it and the write that follows.
+func evConcurrentWrite(node string) h.Event {
+	return h.Event{Label: "another-client-writes-between-get-and-update(" + node + ")", Apply: func(hh *h.Hist) {
+		hh.W.AfterGet[node] = func(n *v1.Node) {
+			n.Spec.Taints = append(n.Spec.Taints, v1.Taint{Key: "example.com/maintenance", Value: "soon", Effect: v1.TaintEffectNoSchedule})
+			if n.Labels == nil {
+				n.Labels = map[string]string{}
+			}
+			n.Labels["example.com/touched"] = "yes"
+		}
+	}}
+}
+
 // evDescribeOmits: during the coming scan every refresh gets a successful DescribeAutoScalingGroups
 // answer that leaves the ASG out (a partial answer; provider rebuilds are answered in full).
 func evDescribeOmits(asg string) h.Event {
